@@ -15,7 +15,7 @@ RULE = ("skeleton documents nesting every schema-valued, schema-array-valued and
 TRUSTED = ["python rendering of RFC 6901 pointers + RFC 3986 fragment percent-encoding for the expected targets"]
 
 KEYS = ["", "/", "~", "~0", "~1", "%", " ", "é", "0", "-", "a/b~c", "%25", "x", "01", "a b", "a+b", "+", "c++", "a&b=c", "?", "#",
-        "a#b", "\"", "\\", "%2F", "%7E0", "~01", "~10", "日本", "😀", "a b+c", ":", "@", "!$'()*,;", "[0]", "{x}", "^a|b$", "\t", "1e0", "-0"]
+        "a#b", "\"", "\\", "%2F", "%7E0", "~01", "~10", "日本", "😀", "a b+c", ":", "@", "!$'()*,;", "[0]", "{x}", "^a|b$", "\t", "1e0", "-0", "x/ü", "~é", "日/本~x", "é~0é", "a~b/Ł", "x/A"]
 # patternProperties keys are also regular expressions: only keys that are valid patterns (and that the driver's matcher reads)
 PKEYS = ["", "/", "~", "~0", "~1", "%", " ", "é", "0", "-", "a/b~c", "%25", "x", "01", "a b", "a+b", "a&b=c", "#", "a#b", "\"", "%2F",
          "%7E0", "~01", "~10", "日本", ":", "@", "1e0", "-0", "a b+c"]
